@@ -239,6 +239,11 @@ TIES = {
               "run (tools/gen_state.py -> Gen/StateSrc.lean) and Props/StateTie.lean (17 theorems, for every state and argument) re-proved: "
               "the builder model's state transitions - which check comes first, what is assigned and when - are exactly the translated "
               "methods; the translator itself is validated against the real class through driver mode gstate."),
+    "builder": ({"C02", "C03", "C05", "C06", "C07"},
+                " 24 commands of gscrib/gcode_builder.py (tool/power/coolant on and off, tool_change, feed, power, temperatures, modes, "
+                "sleep, fan, query, write) are translated too (tools/gen_builder.py -> Gen/BuilderSrc.lean) and Props/BuilderTie.lean (20 "
+                "theorems) re-proved: step rejects exactly when the translated method raises - which then has changed and written nothing - "
+                "and otherwise yields the same state and the same statement (instruction from the translated table, same words)."),
     "point": ({"C01", "C03", "C04", "C11"},
               " Translator tie: Point.resolve/replace/mask/combine/within_bounds of gscrib/geometry/point.py are translated by AST into Lean on "
               "every run (tools/gen_point.py -> Gen/PointSrc.lean) and Props/PointTie.lean re-proved: the models' point operations equal the "
